@@ -184,6 +184,9 @@ def model_assumptions(ctx):
     R3 = 'C01-R3'
     prog = ctx.prog('lib')
     E = 'planner::rules::expr::'
+    # analyses that feed the rules (ranges, constants) order DataValues only at confirmed places (after seed C01-e)
+    from rules.c14_types import datavalue_order_users
+    datavalue_order_users(ctx, prog, 'C01-R4')
     ctx.rule(R3, 'the scalar side conditions are what the law check models: value_cmp calls its comparison only when both constants '
                  'have the same DataValue variant (mem::discriminant equality dominates the call); is_greater_than_or_equal / '
                  'is_greater_than / is_less_than_or_equal / is_less_than pass ge / gt / le / lt to it, operands in order; is_not_zero is '
